@@ -22,6 +22,8 @@ func main() {
 		err = cmdViso(os.Args[2:])
 	case "enc":
 		err = cmdEnc(os.Args[2:])
+	case "iprange":
+		err = cmdIPRange(os.Args[2:])
 	default:
 		err = fmt.Errorf("unknown sub-command %q", os.Args[1])
 	}
